@@ -37,7 +37,7 @@ THEOREMS = ['Nb.C12.' + t for t in [
     'table_findRow', 'save_then_load_returns_writer', 'save_load_after_any_opener_calls',
     'hist_independent_of_opener_calls', 'save_obs_independent_of_history', 'codec_case_insensitive',
     'holders_agree', 'backward_and_dangling_seek_counterexamples', 'routes_equal_holder',
-    'gen_endswith_eq', 'gen_iendswith_eq', 'gen_slice_is_cutEnd', 'gen_splitext_addext_loop_partial',
+    'gen_endswith_eq', 'gen_iendswith_eq', 'gen_slice_is_cutEnd', 'gen_splitext_addext_loop', 'gen_splitext_addext_eq', 'gen_parse_filename_eq', 'gen_osPathSplitext_eq', 'gen_types_filenames_loop_partial',
     'gen_splitLast_is_rfind', 'gen_strip_empty_is_all_dots',
 ]]
 ASSUMPTIONS = [
@@ -532,6 +532,10 @@ def stable(s):
 
 def cases(rng, tier):
     out = []
+    if tier == 'search':
+        # (the search after a broken proof / correspondence stops at the first oracle failure: the cheap streams
+        #  with a reference oracle go first)
+        out.extend(stage_t_cases(rng, tier))
     table = table_facts()
     modelled = [r['name'] for r in table['rows'] if r['kind'] != 2]
     # ---- fm: every modelled class x member x every case mix of extension and suffix x path shapes
@@ -550,7 +554,7 @@ def cases(rng, tier):
                             nm = (dp + '/' if dp else '') + st + es + ss
                             out.append(mk_fm(cls, nm, 'fm-edge'))
     # ---- malformed / edge names through every low-level function
-    names = [n for n in MALFORMED if stable(n)] + [rand_name(rng) for _ in range({'quick': 400, 'thorough': 6000, 'search': 1500}[tier])]
+    names = [n for n in MALFORMED if stable(n)] + [rand_name(rng) for _ in range({'quick': 400, 'thorough': 6000, 'search': 200}[tier])]
     for nm in names:
         for cls in modelled:
             out.append(mk_fm(cls, nm, 'fm-malformed'))
@@ -588,7 +592,7 @@ def cases(rng, tier):
         base = [c for c in full if c[1] == '' and c[4] in (c[3], c[3].upper(), '.' + c[3][1:].capitalize())
                 and c[5] in (c[5].lower(), c[5].upper())]
         rest = [c for c in full if c not in set(base)]
-        chosen = base + rng.sample(rest, {'quick': 500, 'search': 1500}[tier])
+        chosen = base + rng.sample(rest, {'quick': 500, 'search': 300}[tier])
     nbase = len(base) if tier != 'thorough' else 0
     for i, (cls, dp, st, e, es, ss) in enumerate(chosen):
         if cls in ENDIAN_CLASSES and (i < nbase or (tier == 'thorough' and dp == '')):
@@ -620,7 +624,8 @@ def cases(rng, tier):
     out.extend(hist_cases(rng, tier))
     out.extend(wprog_cases(rng, tier))
     out.extend(kw_cases(rng, tier))
-    out.extend(stage_t_cases(rng, tier))
+    if tier != 'search':
+        out.extend(stage_t_cases(rng, tier))
     out.extend(shist_cases(rng, tier))
     return out
 
@@ -963,7 +968,7 @@ def hist_cases(rng, tier):
                 steps += [hist_opener_step(rng), s2] + hist_followups(rng, s2)
             out.append(mk_hist(steps, 'hist-order'))
     # ---- random histories
-    n = {'quick': 110, 'thorough': 1500, 'search': 300}[tier]
+    n = {'quick': 110, 'thorough': 1500, 'search': 80}[tier]
     for _ in range(n):
         steps = []
         sid = 0
@@ -1167,7 +1172,7 @@ def wprog_cases(rng, tier):
              [['s', 4], ['w', '']], [['s', 4], ['w', 'ff']], [['w', ''], ['s', 0], ['w', 'aa']], [['w', 'aabb'], ['s', 2], ['w', 'cc']],
              [['w', 'aabb'], ['s', 0], ['w', 'cc'], ['s', 2], ['w', 'dd']], [['s', 3], ['s', 1], ['w', 'ee']], [['w', '']]]
     progs = list(fixed)
-    for _ in range({'quick': 150, 'thorough': 1500, 'search': 300}[tier]):
+    for _ in range({'quick': 150, 'thorough': 1500, 'search': 60}[tier]):
         ops, pos = [], 0
         for _ in range(rng.randrange(1, 7)):
             r = rng.random()
@@ -1712,7 +1717,7 @@ def shist_cases(rng, tier):
             out.append(mk_shist(cls, en, kind, [['F', cls]]))
             out.append(mk_shist(cls, en, kind, [['R', 0], ['F', cls]]))
             out.append(mk_shist(cls, en, kind, [['F', SHIST_OTHER[cls][0]]]))
-    n = {'quick': 60, 'thorough': 1500, 'search': 300}[tier]
+    n = {'quick': 60, 'thorough': 1500, 'search': 60}[tier]
     for _ in range(n):
         cls, en = rng.choice(imgs)
         kind = rng.choice(seek_kinds)
@@ -1813,6 +1818,56 @@ def mk_pyop(op, args):
                 ('pyop', op, tuple(args)), 'pyop')
 
 
+def _ascii_cased(*strs):
+    return all(ord(c) < 128 or c.lower() == c.upper() for x in strs for c in x)
+
+
+def _ref_iends(whole, end, match_case):
+    """independent statement of the suffix test: the last len(end) characters, compared letter by letter"""
+    if len(end) > len(whole):
+        return False
+    tail = whole[len(whole) - len(end):]
+    if match_case:
+        return tail == end
+    return all(a == b or (a.isalpha() and b.isalpha() and a.swapcase() == b) for a, b in zip(tail, end))
+
+
+def _ref_splitext_addext(name, addexts, match_case):
+    """reference written from the docstring: strip the FIRST listed suffix the name ends with, then split the rest at
+    its last dot (no split when there is no dot or the rest consists of dots only)"""
+    addext = ''
+    for a in addexts:
+        if _ref_iends(name, a, match_case):
+            cut = len(name) - len(a)
+            name, addext = name[:cut], name[cut:]
+            break
+    dots = [i for i, c in enumerate(name) if c == '.']
+    if not dots or all(c == '.' for c in name):
+        return (name, '', addext)
+    return (name[:dots[-1]], name[dots[-1]:], addext)
+
+
+def oracle_gen(d, out):
+    """the gen stream compares translated code with the real code (both move together when the source changes); this
+    reference pins what `_endswith`, `_iendswith`, `splitext_addext` must compute (ASCII-cased arguments)"""
+    fn, a = d['fn'], d['args']
+    strs = [x for x in a if isinstance(x, str)] + [y for x in a if isinstance(x, list) for y in x if isinstance(y, str)]
+    if not _ascii_cased(*strs):
+        return None
+    if fn in ('_endswith', '_iendswith'):
+        want = show_val(_ref_iends(a[0], a[1], fn == '_endswith'))
+    elif fn == 'splitext_addext':
+        if '' in a[1]:
+            return None      # (an EMPTY suffix: `filename[:-0]` is '' in the real code — modelled, not specified)
+        want = show_val(_ref_splitext_addext(a[0], a[1], bool(a[2])))
+    else:
+        return None
+    if out != want:
+        return (f'filename_parser.{fn}{tuple(a)!r} returns {out}, the reference (suffix test letter by letter / split at '
+                f'the last dot after removing the first matching suffix) gives {want}')
+    return None
+
+
 def impl_pyop(d):
     f = PYOPS1[d['fn']] if len(d['args']) == 1 else PYOPS2[d['fn']]
     try:
@@ -1858,7 +1913,7 @@ def stage_t_cases(rng, tier):
     rows = [(tuple(map(tuple, r['files_types'])), tuple(r['suffixes'])) for r in table['rows']]
     rows = list(dict.fromkeys(rows))
     names = [n for n in MALFORMED + PYOP_STRINGS if stable(n)]
-    names += [rand_name(rng) for _ in range({'quick': 80, 'thorough': 3000, 'search': 600}[tier])]
+    names += [rand_name(rng) for _ in range({'quick': 80, 'thorough': 3000, 'search': 300}[tier])]
     for cls in [r['name'] for r in table['rows'] if r['kind'] != 2]:
         acc = list(accepted_names(cls, rng, 2))
         for e, es, ss_ in (acc if tier != 'quick' else rng.sample(acc, min(len(acc), 12))):
@@ -2230,6 +2285,8 @@ def oracle(case, out):
         return oracle_hist(case, out)
     if d['op'] == 'wprog':
         return oracle_wprog(case, out)
+    if d['op'] == 'gen':
+        return oracle_gen(d, out)
     if d['op'] == 'kw':
         return oracle_kw(case, out)
     if d['op'] == 'shist':
